@@ -232,6 +232,9 @@ type Node struct {
 	// MergeTwo: only part1.Merge(part2) (all cuts have b == len).
 	MergeCuts [3][2]int
 	MergeTwo  bool
+	// Derive (Struct only): after the schema was assembled it is replaced by a derived schema that selects nothing away:
+	// 1 = s.Pick(all keys...), 2 = s.Omit(), 3 = s.Extend(z.Schema{}), 4 = s.Pick(map of all keys). Documented to behave like s.
+	Derive int
 }
 
 // CoercerSpec is a z.WithCoercer option: the coercer returns Mark (of the node's Go type) for any input, or an error when Fail.
